@@ -539,6 +539,15 @@ pub fn dtfrom_line(out: &mut impl Write, z: &TimeZoneRef<'_>, u: i64, ns: u32) {
     writeln!(out, "dtfrom {} {} => {}", u, ns, ans).unwrap();
 }
 
+pub fn dtfromtn_line(out: &mut impl Write, z: &TimeZoneRef<'_>, total: i128) {
+    let z = *z;
+    let ans = guarded(move || match DateTime::from_total_nanoseconds(total, z) {
+        Ok(d) => format!("{} TN {}", dt_text(&d), d.total_nanoseconds()),
+        Err(e) => err_text(&e),
+    });
+    writeln!(out, "dtfromtn {} => {}", total, ans).unwrap();
+}
+
 pub fn zone_lookups(out: &mut impl Write, rng: &mut Rng, thorough: bool, leaps_only: bool) {
     let n = if thorough { 6000 } else { 700 };
     let opts = ZoneOpts { wild_offsets: true, leaps: true, deletions: true, max_transitions: 40, extreme_times: true };
@@ -558,6 +567,14 @@ pub fn zone_lookups(out: &mut impl Write, rng: &mut Rng, thorough: bool, leaps_o
             lookup_line(out, &z, u);
             if i % 3 == 0 {
                 dtfrom_line(out, &z, u, (u as u32) % 1_000_000_007 % 1_000_000_001);
+            }
+            if i % 3 == 1 {
+                // total nanoseconds around the instant: the last nanosecond of the previous second,
+                // the exact second, one nanosecond later (negative totals exercise the floor)
+                let base = u as i128 * 1_000_000_000;
+                for d in [-1i128, 0, 1, 999_999_999] {
+                    dtfromtn_line(out, &z, base + d);
+                }
             }
         }
     }
@@ -914,8 +931,21 @@ pub fn find_family(out: &mut impl Write, rng: &mut Rng, thorough: bool, with_fin
         }
         let z = b.zref().unwrap();
         let locals = zone_local_times(rng, &b, thorough);
+        // sibling zone: the same rule days and times with both offsets shifted, searched right afterwards at the
+        // same local times (a result that depended on the previous search would show here)
+        let sibling: Option<Built> = match (&b.raw.rule, b.raw.transitions.is_empty()) {
+            (Some(TransitionRule::Alternate(a)), true) if i % 2 == 0 => {
+                let sh = *rng.pick(&[3600i32, -3600, 1800]);
+                let shift = |l: &LocalTimeType| LocalTimeType::new(l.ut_offset() + sh, l.is_dst(), Some(l.time_zone_designation().as_bytes()).filter(|n| !n.is_empty())).ok();
+                match (shift(a.std()), shift(a.dst())) {
+                    (Some(s2), Some(d2)) => AlternateTime::new(s2, d2, *a.dst_start(), a.dst_start_time(), *a.dst_end(), a.dst_end_time()).ok().map(rule_zone),
+                    _ => None,
+                }
+            }
+            _ => None,
+        };
         let mut prev: Option<Fields> = None;
-        for f in locals {
+        for f in locals.clone() {
             let k = find_line(out, &z, f);
             if with_findn && (thorough || k != 1 || rng.chance(1, 4)) {
                 let stale = prev.unwrap_or((1999, 12, 31, 23, 59, 59, 5));
@@ -924,6 +954,21 @@ pub fn find_family(out: &mut impl Write, rng: &mut Rng, thorough: bool, with_fin
                 }
             }
             prev = Some(f);
+        }
+        if let Some(sb) = sibling {
+            if zone_line(out, &sb) {
+                let zs = sb.zref().unwrap();
+                // alternate between the two zones so that each search follows one in the other zone
+                for f in locals.iter().take(40) {
+                    find_line(out, &zs, *f);
+                }
+                zone_line(out, &b);
+                for f in locals.iter().take(12) {
+                    find_line(out, &z, *f);
+                    // the harness keeps both zones alive: same thread, consecutive searches
+                    let _ = DateTime::find_n(&mut [None; 4], f.0, f.1, f.2, f.3, f.4, f.5, f.6, zs);
+                }
+            }
         }
     }
 }
